@@ -26,6 +26,23 @@ for i := 0; i < 2; YIELD(x*100 + i) {
 }
 YIELD(x)
 RETNIL`, "for-post-yield", "shadow"),
+		G("scope-partial-redeclaration-after-yield", `
+a := 1
+get := func() int { return tr.R(1, a) }
+YIELD(a)
+a, b := tr.V(2, 2), tr.V(3, 3)
+YIELD(a*10 + b)
+YIELD(get())
+a, c := pairOf(a)
+YIELD(a*100 + c)
+YIELD(get())
+if tr.B(4) {
+	YIELD(0)
+	a, d := 7, 8
+	YIELD(a + d)
+}
+YIELD(get())
+RETNIL`, "partial-redeclaration"),
 		G("scope-body-redeclares-counter", `
 for i := 0; i < 3; i++ {
 	i := i * 10
